@@ -91,7 +91,19 @@ def g_weak():
     return m, ["a_value", "b_value"], ["z_value", "z_log_prob", "w_value", "_model_log_prob"], [], F, DEPS
 
 
-GRAPHS = {"chain": g_chain, "diamond": g_diamond, "dist": g_dist, "weak": g_weak}
+def g_dist2():
+    """small version of `dist`: one observed strong variable with a distribution (value proxy, `at` edge), a derived variable, model totals"""
+    mu = Var(1, name="mu")
+    x = lsl.obs(3, Dist(StubDist, loc=mu), name="x")
+    y = Var(Calc(counted("y", lambda u: 3 * u - 1), x), name="y")
+    m = lsl.GraphBuilder(to_float32=False).add(y).build_model()
+    F = {"x_log_prob": lambda v: 2 * v["x_value"] - 3 * v["mu_value"], "y_value": lambda v: 3 * v["x_value"] - 1, "_model_log_lik": lambda v: v["x_log_prob"],
+         "_model_log_prob": lambda v: v["x_log_prob"]}
+    DEPS = {"x_log_prob": ["x_value", "mu_value"], "y_value": ["x_value"], "_model_log_lik": ["x_log_prob"], "_model_log_prob": ["x_log_prob"]}
+    return m, ["mu_value", "x_value"], ["x_log_prob", "y_value", "_model_log_lik", "_model_log_prob"], [], F, DEPS
+
+
+GRAPHS = {"chain": g_chain, "diamond": g_diamond, "dist": g_dist, "weak": g_weak, "dist2": g_dist2}
 M, VALUES, CACHING, TRANS, F, DEPS = GRAPHS[GRAPH]()
 ALL = VALUES + CACHING
 # other model-level nodes without distributions inputs (constant totals) are left alone
